@@ -106,7 +106,7 @@ func init() {
 			}
 			return 8
 		},
-		Cases:       func(r *obs.Run) int { return r.Share(r.Pick(480, 1600)) },
+		Cases:       func(r *obs.Run) int { return r.Share(r.Pick(800, 2400)) },
 		Case:        c15Case,
 		MinDistinct: func(t string) int { return 150 },
 		Floors: func(string) map[string]int64 {
